@@ -793,6 +793,20 @@ fn has_valid_cookie(p: &Plan) -> bool {
 }
 
 /// the kinds an honest, complete login must be answered with (Keep Alives aside)
+/// does `got` answer an honest, complete client? (`want` from [`expected_kinds`]; a player admitted by a cookie
+/// may be given a refreshed authentication cookie as well: no property forbids it)
+pub fn kinds_ok(got: &[&str], want: &[&'static str], p: &Plan) -> bool {
+    if got == want {
+        return true;
+    }
+    let mut with_refresh = want.to_vec();
+    if !p.status && has_valid_cookie(p) && with_refresh.len() >= 2 {
+        with_refresh.insert(with_refresh.len() - 1, "StoreCookie");
+        return got == with_refresh.as_slice();
+    }
+    false
+}
+
 pub fn expected_kinds(cfg: &WorldCfg, p: &Plan) -> Option<Vec<&'static str>> {
     if p.status {
         return (p.stages >= 3).then(|| vec!["StatusResponse", "Pong"]);
@@ -966,7 +980,7 @@ pub fn judge(prop: &str, s: &Situation) -> Vec<(String, String)> {
             let name = late.packets.iter().find_map(|p| if let Pkt::LoginSuccess { name, .. } = p { Some(name.as_str()) } else { None });
             let t = world_choice("V_Zed", &world_targets()).expect("target");
             let went = late.packets.iter().find_map(|p| if let Pkt::Transfer { host, port } = p { Some((host.parse::<IpAddr>().ok(), *port)) } else { None });
-            if got != want || name != Some("V_Zed") || went != Some((Some(t.address.ip()), t.address.port() as i32)) || !wire_faults(late).is_empty() {
+            if !kinds_ok(&got, &want, &late_plan()) || name != Some("V_Zed") || went != Some((Some(t.address.ip()), t.address.port() as i32)) || !wire_faults(late).is_empty() {
                 v.push(("world:later-player-not-served-correctly".into(), format!("an ordinary player who logged in after the others were gone was answered with {got:?} as {name:?}, sent to {went:?} (stage {:?}, error {:?}); expected {want:?} as V_Zed, sent to {}", late.stage, late.error, t.address)));
             }
         }
@@ -975,7 +989,7 @@ pub fn judge(prop: &str, s: &Situation) -> Vec<(String, String)> {
     if matches!(prop, "C01" | "C03" | "C05" | "C06" | "C08" | "C10") && s.plans.len() == 1 {
         if let Some(want) = expected_kinds(&s.cfg, &s.plans[0]) {
             let got: Vec<&str> = s.out.recs[0].packets.iter().map(|p| p.kind()).filter(|k| *k != "KeepAlive").collect();
-            if got != want {
+            if !kinds_ok(&got, &want, &s.plans[0]) {
                 v.push(("world:honest-client-not-served".into(), format!("{}: answered with {got:?} (stage {:?}, error {:?}, {}); expected {want:?}", s.plans[0].label, s.out.recs[0].stage, s.out.recs[0].error, s.out.recs[0].ended)));
             }
         }
